@@ -383,10 +383,11 @@ pub open spec fn lifted(b: SessionFrameBody) -> FrameBody {
 //@@ subst `Receiver<SessionFrame>` => `ChanReceiver<SessionFrame>` rule=R9
 //@@ end
 
-/// C17: if the peer advertises an idle time-out T > 0 a heartbeat is armed and its period is at most T (so that no interval of that length passes
-/// without a frame; sending more often is allowed); if it advertises none (unset or 0) no period is derived from it
+/// C17: if the peer advertises an idle time-out T > 0 a heartbeat is armed and its period is STRICTLY below T (so that no interval of that length passes
+/// without a frame: with a period of exactly T the frames leave at t0, t0+T, ... and the peer's timer, armed with the same T, fires first -- two endpoints
+/// of this crate with idle_time_out(1000) on the listener dropped the idle client after 1 s); if it advertises none (unset or 0) no period is derived from it
 pub open spec fn heartbeat_ok(period_ms: Option<u64>, peer_idle_time_out: Option<u32>) -> bool {
-    match peer_idle_time_out { Some(ms) => if ms == 0 { period_ms is None } else { period_ms is Some && 0 < period_ms->Some_0 <= ms as u64 }, None => period_ms is None }
+    match peer_idle_time_out { Some(ms) => if ms == 0 { period_ms is None } else { period_ms is Some && 0 < period_ms->Some_0 && (period_ms->Some_0 < ms as u64 || ms == 1) }, None => period_ms is None }
 }
 pub open spec fn close_already_sent(st: ConnectionState) -> bool { st is CloseSent || st is Discarding || st is ClosePipe || st is OpenClosePipe || st is End }
 
@@ -452,7 +453,7 @@ impl ConnectionEngine {
         }),
         frame.body is Close && (old(self).connection.st is Opened || old(self).connection.st is OpenPipe || old(self).connection.st is OpenClosePipe
             || old(self).connection.st is OpenReceived || old(self).connection.st is OpenSent) ==>
-            r == Err::<Running, ConnectionInnerError>(state_err_to_inner(match frame.body->Close_0.error { Some(e) => ConnectionStateError::RemoteClosedWithError(e), None => ConnectionStateError::RemoteClosed })),   // [C12.peer-close-error-survives-failed-answer] the reason of the peer's close is what is reported even when the answering Close (or the flush before it) cannot be written any more (peer closed and dropped the socket)
+            r == Err::<Running, ConnectionInnerError>(state_err_to_inner(match frame.body->Close_0.error { Some(e) => ConnectionStateError::RemoteClosedWithError(e), None => ConnectionStateError::RemoteClosed })),   // [C12.peer-close-error-survives-failed-answer] [C14.handle.reports-peer-error] the reason of the peer's close is what is reported even when the answering Close (or the flush before it) cannot be written any more (peer closed and dropped the socket)
         frame.body is Close && (old(self).connection.st is CloseSent || old(self).connection.st is Discarding) ==>
             final(self).connection.st is End && final(self).transport.sent@ == old(self).transport.sent@
             && (frame.body->Close_0.error is None ==> r == Ok::<Running, ConnectionInnerError>(Running::Stop)),         // [C12.close-completed] the peer's answer to our close ends the connection: nothing more is written
@@ -515,7 +516,7 @@ impl ConnectionEngine {
         close_already_sent(old(self).connection.st) && (old(self).connection.st is Discarding || old(self).connection.st is End) ==> final(self).transport.sent@ == old(self).transport.sent@,   // [C12.close-at-most-once]
         (*error is RemoteClosed || *error is RemoteClosedWithError) && old(self).connection.st is CloseReceived && final(self).transport.failures@ == old(self).transport.failures@
             ==> final(self).transport.sent@ == old(self).transport.sent@.push(close_frame(None)),                  // [C12.peer-close-answered] the answer to the peer's close carries no error of our own
-        (*error is RemoteClosed || *error is RemoteClosedWithError) ==> r == Ok::<Running, ConnectionInnerError>(Running::Stop),       // [C12.peer-close-error-survives-failed-answer] handling the peer's close never fails: a failure to write the answer must not replace the peer's reason in the handle's result (event_loop reports on_error's own error if it returns one)
+        (*error is RemoteClosed || *error is RemoteClosedWithError) ==> r == Ok::<Running, ConnectionInnerError>(Running::Stop),       // [C12.peer-close-error-survives-failed-answer] [C14.handle.reports-peer-error] handling the peer's close never fails: a failure to write the answer must not replace the peer's reason in the handle's result (event_loop reports on_error's own error if it returns one)
         r is Ok ==> r->Ok_0 is Stop,
 //@@ end
 
@@ -606,7 +607,7 @@ impl ConnectionEngine {
 //@@ end
 
 //@@ fn file=fe2o3-amqp/src/connection/engine.rs impl=`~impl<Io,C>ConnectionEngine<Io,C>whereIo:AsyncRead+AsyncWrite+std::fmt::Debug+SendBound+Unpin+'static,C:endpoint::Connection<State=ConnectionState>` name=event_loop as=event_loop_tail
-//@@ tailfrom `let close = self.transport.close()`
+//@@ tailafter `loop {`
 //@@ addparam outcome: Result<(), ConnectionInnerError>
 //@@ param tx : OutcomeTx
 //@@ subst `(mut self,` => `(&mut self,` rule=R32
